@@ -8,7 +8,9 @@
     structurally ([C02_table_tie]) and decided by the complete enumeration of harness/c02.go
     against compiled Go (validated, not proved). *)
 From Coq Require Import ZArith List String Bool.
+From Coq Require Import QArith.
 From Verif Require Import Num.OpDsl Num.GoInt Num.Model Num.Proofs gen.OpTable_gen.
+From Verif Require Num.ConstRound.
 Import ListNotations.
 Open Scope Z_scope.
 
@@ -41,6 +43,45 @@ Theorem C02_convert_tie :
   convert_closure = model_convert_closure /\ convert_do = true /\ convert_typ = model_convert_typ.
 Proof. exact convert_tie. Qed.
 Print Assumptions C02_convert_tie.
+
+(** typecheck.convertConst materialises an untyped constant at float32 with constant.Float32Val and at
+    float64 with constant.Float64Val: one rounding of the exact value (text of the cases regenerated
+    from the source) *)
+Theorem C02_convertconst_tie : convertconst_cases = model_convertconst_cases.
+Proof. exact convertconst_tie. Qed.
+Print Assumptions C02_convertconst_tie.
+
+(** constant -> floating-point destination: the model rounds once, as the Go specification does ... *)
+Theorem C02_const_float_full : forall b q, ConstRound.y_const_float b q = ConstRound.g_const_float b q.
+Proof. exact ConstRound.const_float_full. Qed.
+Print Assumptions C02_const_float_full.
+
+(** ... and rounding twice (exact -> float64 -> float32) is a different function: 16777217.0000000001
+    rounds to 16777218 once, to 16777216 through float64; 1 + 2^-24 + 2^-60 likewise *)
+Theorem C02_double_rounding_refuted :
+  ConstRound.optq_eqb (ConstRound.round32 ConstRound.q_witness) (Some (16777218 # 1)%Q) = true
+  /\ ConstRound.optq_eqb (ConstRound.round64 ConstRound.q_witness) (Some (16777217 # 1)%Q) = true
+  /\ ConstRound.optq_eqb (ConstRound.double32 ConstRound.q_witness) (Some (16777216 # 1)%Q) = true.
+Proof. exact ConstRound.double_rounding_refuted. Qed.
+Print Assumptions C02_double_rounding_refuted.
+
+Theorem C02_double_rounding_refuted2 :
+  ConstRound.optq_eqb (ConstRound.round32 ConstRound.q_witness2) (Some (8388609 # 8388608)%Q) = true
+  /\ ConstRound.optq_eqb (ConstRound.double32 ConstRound.q_witness2) (Some (1 # 1)%Q) = true.
+Proof. exact ConstRound.double_rounding_refuted2. Qed.
+Print Assumptions C02_double_rounding_refuted2.
+
+(** the two roundings agree on every value float64 represents exactly, and can only differ when the
+    float64 rounding moved the value *)
+Theorem C02_double_rounding_agrees_on_float64 :
+  forall q, ConstRound.round64 q = Some q -> ConstRound.double32 q = ConstRound.round32 q.
+Proof. exact ConstRound.double_agrees_on_float64. Qed.
+Print Assumptions C02_double_rounding_agrees_on_float64.
+
+Theorem C02_double_rounding_differs_only_off_float64 :
+  forall q, ConstRound.double32 q <> ConstRound.round32 q -> ConstRound.round64 q <> Some q.
+Proof. exact ConstRound.double_differs_only_off_float64. Qed.
+Print Assumptions C02_double_rounding_differs_only_off_float64.
 
 (** every row of an integer family of the regenerated table has the normal form of its family *)
 Theorem C02_rows_ok : forallb row_ok op_table = true.
